@@ -81,9 +81,13 @@ func hashC19(k []byte) uint64 {
 	return uint64(k[15]) + uint64(k[14])
 }
 
-// VerifC19_membership: NP ranges + NS singles + one probe, all symbolic.
-func VerifC19_membership() {
-	free := vrt.Param("FREE", 16)
+// VerifC19_membership: NP ranges + NS singles + one probe, all symbolic (last FREE bytes free).
+func VerifC19_membership() { runC19(vrt.Param("FREE", 1)) }
+
+// VerifC19_membershipWide: the same check with more symbolic bytes per address and fewer ranges.
+func VerifC19_membershipWide() { runC19(vrt.Param("FREE", 4)) }
+
+func runC19(free int) {
 	np := vrt.Range("pairs", 0, vrt.Param("NP", 2))
 	ns := vrt.Range("singles", 0, vrt.Param("NS", 1))
 	set, err := hash_set.NewHashSet(ns+1, IP_LENGTH, true, hashC19)
